@@ -749,8 +749,13 @@ func (m *BooleanPreAgg) sum() interface{} {
 func (m *BooleanPreAgg) addValues(col *record.ColVal, times []int64) {
 	values := col.Int8Values()
 	valLen := len(values)
-	for i := 0; i < valLen; i++ {
-		v := values[i]
+	// values of null rows are not stored: i is the row, j the value
+	for i, j := 0, 0; i < col.Len && j < valLen; i++ {
+		if col.NilCount > 0 && col.IsNil(i) {
+			continue
+		}
+		v := values[j]
+		j++
 		if m.minV > v {
 			m.minV = v
 			m.minTime = times[i]
